@@ -2431,7 +2431,17 @@ int32_t processFinished(ssl_t *ssl, flightEncode_t *msg)
 # ifdef USE_DTLS
     if (ACTV_VER(ssl, v_dtls_any))
     {
-        if (msg->hsMsg == SSL_HS_FINISHED)
+        if (msg->hsMsg == SSL_HS_FINISHED && ssl->retransmit)
+        {
+            /* A retransmission belongs to the epoch of the first
+               transmission (RFC 6347, 4.1 and 4.2.4): that is the largest
+               one used.  The sequence number goes on from where
+               dtlsResendFlight put it, above every number used so far, so
+               no (epoch, sequence number) pair is ever used twice */
+            ssl->epoch[0] = ssl->largestEpoch[0];
+            ssl->epoch[1] = ssl->largestEpoch[1];
+        }
+        else if (msg->hsMsg == SSL_HS_FINISHED)
         {
             /* Epoch is incremented and the sequence numbers are reset for
                this message */
